@@ -314,6 +314,11 @@ def sweep(prop, tier, seed, jobs, scratch):
     if agg['ok'] == 0:
       log('HARNESS-ERROR: no run completed')
       exit_code = max(exit_code, 2)
+    elif len(agg['nontrivial_sigs']) < 2 and not violators:
+      # e.g. the hook is gone and the large-model path never ran: nothing was decided
+      log('HARNESS-ERROR: fewer than 2 non-trivial cases explored; the workload did not reach the '
+          'behaviour the property is about')
+      exit_code = max(exit_code, 2)
     stuck = [p for p in simplify.EXPECTED_PROBES.get(prop, []) if not agg['probes'].get(p)
              and not agg['faults'].get(p)]
     if stuck:
